@@ -111,7 +111,7 @@ CHECKS['C16'] = dict(
          'holding a list at a path q through mappings and every document that is a chain of one-entry mappings along q ending in !append L, the whole of root.merge(doc) (premerge: detach + '
          'extend; then the merge, via the C02 refinement) succeeds with content app_at(config, q, L); C16_append_result_at_path (the value at q is the previous list followed by L, in order) and '
          'C16_append_every_other_path_kept (every path that leaves the spine of q keeps its value; the list key moves to the end of its mapping); app_at is tied to Builder.build by correspondence '
-         '(content and key order). C16_prev_end_to_end: for a document {q: !prev p} with p reached through mappings and q a new key, the whole merge yields the config without p (prem; C16_prev_every_other_path_kept) plus the entire previous subtree of p under q. Partial: !extend end to end, several operators in one document and targets below tagged content are decided by the correspondence plus the scenario '
+         '(content and key order). C16_prev_end_to_end: for a document {q: !prev p} with p reached through mappings and q a new key, the whole merge yields the config without p (prem; C16_prev_every_other_path_kept) plus the entire previous subtree of p under q. C16_extend_end_to_end (a list at the path: as !append) and C16_extend_fallback_end_to_end (nothing / no list there: the whole merge IS the reference update with the plain list). Partial: several operators in one document and targets below tagged content are decided by the correspondence plus the scenario '
          'oracle; targets reached through a list index are a recorded known finding (D15).',
     design='4 (C16), 6 (D14, D15)',
     technique='Coq lemmas on remove_node / extend_node / on_premerge and an end-to-end refinement theorem for !append; sampled vm_compute correspondence of premerge+merge; scenario oracle (existing/missing/non-list targets, two operators, dotted keys) for replays')
